@@ -35,7 +35,7 @@ def scn_names(params):
     t = tunnelscn.run_tunnel("c08n-%d" % params["idx"], cfg, seed, plan)
     try:
         k = t.sim.k
-        L = cfg["M"]
+        L = min(cfg["M"], 255)      # (-M beyond 255 means 255)
         dl = [x.lower() for x in proto.labels_from_dotted(t.sim.domain.encode())]
         longest = 0
         for ev in k.log:
